@@ -88,6 +88,18 @@ Theorem lut_read_correct : forall (A : Type) (d : A) lil (l dst : list A),
 Proof. intros A. exact (@lut_read_lemma A). Qed.
 Print Assumptions lut_read_correct.
 
+(** Old-style RLE rasters (dfrle.c; run window, run threshold, literal flush limit, flag and mask regenerated from
+    the source): DFCIunrle (DFCIrle row) = row for EVERY byte row, and row-by-row for every image
+    (DFputcomp / DFgetcomp as used by hcompri.c when such a raster is read through GRreadimage). *)
+Theorem dfrle_roundtrip : forall row : list nat, dfrle_decode (dfrle_encode row) = row.
+Proof. exact dfrle_roundtrip_lemma. Qed.
+Print Assumptions dfrle_roundtrip.
+
+Theorem rle_image_roundtrip : forall w h bytes,
+    length bytes = w * h -> rle_image_decode (rle_image_encode w h bytes) = bytes.
+Proof. exact rle_image_roundtrip_lemma. Qed.
+Print Assumptions rle_image_roundtrip.
+
 (** Non-vacuity and concrete instances. *)
 Example walk_line_to_pixel :
   il_convert_walk ILline ILpixel 3 2 2 1 [1;2;3;4;5;6;7;8;9;10;11;12] (repeat 0 12)
@@ -113,3 +125,7 @@ Example solid_first_write :
   let r := {| r_sx := 1; r_sy := 2; r_tx := 1; r_ty := 1; r_cx := 2; r_cy := 2 |} in
   gr_write_px None 4 5 r 9 [1;2;3;4] = spec_write_px 0 (repeat 9 20) 4 5 r [1;2;3;4].
 Proof. vm_compute. reflexivity. Qed.
+Example rle_long_run :
+  dfrle_encode (repeat 7 130 ++ [1; 2; 2; 2; 2]) = [248; 7; 138; 7; 1; 1; 132; 2]
+  /\ dfrle_decode [248; 7; 138; 7; 1; 1; 132; 2] = repeat 7 130 ++ [1; 2; 2; 2; 2].
+Proof. vm_compute. auto. Qed.
